@@ -511,19 +511,22 @@ func (fe *FE) applyContract(st *State, ins ssa.Instruction, ci *callInfo, res ss
 		t := st.clone()
 		tcc := *cc
 		tcc.st = t
+		// the counter grows BEFORE the frame is havocked: the closed-world bound of a havocked reference must admit
+		// objects the callee allocated
+		fe.bumpCnt(t)
 		if !con.PanicSafe {
 			fe.applyModifies(t, &tcc, con, name)
 		}
-		fe.bumpCnt(t)
 		t.path = append(t.path, "panic-in:"+shortName(name))
 		fe.doPanic(t, "callee "+name+" panics", "", "")
 	}
 	// 4. frame
-	mods := fe.applyModifies(st, cc, con, name)
+	// (the counter grows before the havoc, see above: a reference written by the callee may be to a new object)
 	prevCnt := fe.cntTerm(st)
 	if !con.Pure {
 		prevCnt = fe.bumpCnt(st)
 	}
+	mods := fe.applyModifies(st, cc, con, name)
 	// 5. results
 	var results []Val
 	sig := ci.sig
